@@ -14,6 +14,7 @@ pub mod limits;
 pub mod ops;
 pub mod policy;
 pub mod run;
+pub mod threads;
 pub mod world;
 
 #[global_allocator]
